@@ -19,7 +19,12 @@ type C35Case struct {
 	Roots []string   `json:"workspace"`
 	Par   int        `json:"par"`
 	Steps []EditStep `json:"steps"`
-	Sched Sched      `json:"sched"`
+	// Concurrent > 0: the edits are applied inside EvictWithCleanup's cleanup
+	// (atomically with the eviction) while a second client compiles the
+	// workspace Concurrent times on the same executor; each of its results must
+	// be the batch result of one of the file states that existed while it ran.
+	Concurrent int   `json:"concurrent_compiles,omitempty"`
+	Sched      Sched `json:"sched"`
 }
 
 func genC35(t *rapid.T) C35Case {
@@ -32,6 +37,9 @@ func genC35(t *rapid.T) C35Case {
 		c.WL = wl
 	}
 	c.Steps = genEditSteps(t, &wl, rapid.IntRange(1, 5).Draw(t, "nsteps"))
+	if rapid.IntRange(0, 3).Draw(t, "concurrent") == 0 {
+		c.Concurrent = rapid.IntRange(1, 3).Draw(t, "nconcurrent")
+	}
 	c.Sched = Sched{Tape: genTape(t, 500), Disabled: genDisabled(t, incrOptional), PCT: genPCT(t, 200), Tail: genTail(t)}
 	return c
 }
@@ -58,14 +66,27 @@ func execC35(t *testing.T, c C35Case) *Verdict {
 	disk := &simOpener{files: c.WL.userSources(), transient: map[string]bool{}}
 	var v *Verdict
 	nontrivial := false
+	var long *expEnv
+	stepsDone := 0 // number of edit steps applied to the disk so far
 	client := sim.Client{Name: "c0", Fn: func() {
-		long := newExpEnv(disk, c.Roots, c.Par)
+		long = newExpEnv(disk, c.Roots, c.Par)
 		for step := -1; step < len(c.Steps); step++ {
 			kind := "initial compile"
 			if step >= 0 {
 				sim.Yield("h.op", "")
-				c.Steps[step].apply(disk)
-				long.evict(c.Steps[step].Evict)
+				if v != nil {
+					return
+				}
+				if c.Concurrent > 0 {
+					long.evictWith(c.Steps[step].Evict, func() {
+						c.Steps[step].apply(disk)
+						stepsDone++
+					})
+				} else {
+					c.Steps[step].apply(disk)
+					stepsDone++
+					long.evict(c.Steps[step].Evict)
+				}
 				kind = c.Steps[step].Kind
 				st.Fault("edit:" + firstWord(kind))
 			}
@@ -92,9 +113,46 @@ func execC35(t *testing.T, c C35Case) *Verdict {
 			}
 		}
 	}}
+	clients := []sim.Client{client}
+	if c.Concurrent > 0 {
+		clients = append(clients, sim.Client{Name: "c1", Fn: func() {
+			for i := 0; i < c.Concurrent; i++ {
+				sim.Yield("h.op", "")
+				if long == nil || v != nil {
+					continue
+				}
+				lo := stepsDone
+				got := long.compile(context.Background())
+				hi := stepsDone
+				st.Probe("concurrent-compile")
+				var first *Verdict
+				ok := false
+				for j := lo; j <= hi && !ok; j++ {
+					d := diffOutcome("C35", got, batch[j])
+					if d == nil {
+						ok = true
+					} else if first == nil {
+						first = d
+					}
+				}
+				if !ok && v == nil {
+					v = first
+					v.Detail = fmt.Sprintf("a compile running concurrently with the edits (file states %d..%d existed while it ran) matches none of them; against state %d: %s", lo, hi, lo, v.Detail)
+					if textHasImportCycle(disk.files, c.Roots) && (v.Class == "C35/diagnostics-differ" || v.Class == "C35/diagnostics-order-differs") {
+						v.Class += "-with-import-cycle"
+					}
+					return
+				}
+			}
+		}})
+	}
 	cfg := incrBubbleCfg(&c.Sched, &gworld{}, 100000)
-	cfg.Guards = nil
-	out := sim.RunBubble(t, cfg, []sim.Client{client}, nil)
+	cfg.Guards = map[string]func() bool{
+		// an eviction reaches the executor's exclusive lock only when no Run is in
+		// flight and nothing a Run spawned is still alive (see incrBubbleCfg)
+		"i.evict.lock": func() bool { return long == nil || long.active == 0 && !sim.SpawnedParked() },
+	}
+	out := sim.RunBubble(t, cfg, clients, nil)
 	stepsJSON, _ := json.Marshal(c.Steps)
 	st.Case(fmt.Sprintf("%v|%v|%s|%d|%d", c.WL.Files, c.Roots, stepsJSON, c.Par, out.TraceHash), nontrivial || len(c.Steps) > 1)
 	if hv := hangVerdict("C35", out); hv != nil {
